@@ -15,6 +15,7 @@ import (
 	"os"
 	"os/exec"
 	"path/filepath"
+	"sort"
 	"strings"
 	"time"
 )
@@ -24,6 +25,7 @@ const c20Batch = 200
 var c20Loaders = []string{"grl", "jsonrule", "jsonfact", "grb"}
 
 var c20JSONRuleSeeds = []string{
+	`[null]`, `[{"name":"R","desc":"d","salience":1,"when":"true","then":["F.A = 1"]},null]`,
 	`{"name":"SpeedUp","desc":"When testcar is speeding up we keep increase the speed.","salience":10,"when":"TestCar.SpeedUp == true && TestCar.Speed < TestCar.MaxSpeed","then":["TestCar.Speed = TestCar.Speed + TestCar.SpeedIncrement","DistanceRecord.TotalDistance = DistanceRecord.TotalDistance + TestCar.Speed","Log(\"Speed increased\")"]}`,
 	`[{"name":"R","desc":"d","salience":-3,"when":{"and":[{"eq":[{"obj":"F.T"},{"const":true}]},{"lt":["F.A",{"plus":["F.B",1,{"const":2.5}]}]},{"not":[{"or":[{"gte":["F.X",1e21]},{"eq":[{"const":"s\"q"},"F.S1"]}]}]}]},"then":[{"set":["F.A",{"mul":[{"minus":["F.A",1]},2]}]},{"call":["Log",{"const":"x\ny"}]},"Retract(\"R\")"]}]`,
 }
@@ -120,7 +122,75 @@ func grbFieldOffsets(t string) ([]byte, []int) {
 	return w.buf.Bytes(), offs
 }
 
+// jsonStructMutate replaces / removes / duplicates one node of a JSON document (valid JSON out).
+func jsonStructMutate(r *rand.Rand, seed []byte) ([]byte, bool) {
+	var doc interface{}
+	if json.Unmarshal(seed, &doc) != nil {
+		return nil, false
+	}
+	repl := func() interface{} {
+		return []interface{}{nil, nil, []interface{}{}, map[string]interface{}{}, 0.0, -1.0, 1e308, "", "x", true, []interface{}{nil}, map[string]interface{}{"and": nil}}[r.Intn(12)]
+	}
+	// collect slots
+	type slot struct {
+		m map[string]interface{}
+		k string
+		a []interface{}
+		i int
+	}
+	var slots []slot
+	var walk func(v interface{})
+	walk = func(v interface{}) {
+		switch t := v.(type) {
+		case map[string]interface{}:
+			keys := make([]string, 0, len(t))
+			for k := range t {
+				keys = append(keys, k)
+			}
+			sort.Strings(keys) // deterministic slot order (replays regenerate the inputs)
+			for _, k := range keys {
+				slots = append(slots, slot{m: t, k: k})
+				walk(t[k])
+			}
+		case []interface{}:
+			for i, c := range t {
+				slots = append(slots, slot{a: t, i: i})
+				walk(c)
+			}
+		}
+	}
+	walk(doc)
+	if len(slots) == 0 || r.Intn(8) == 0 {
+		doc = repl()
+	} else {
+		sl := slots[r.Intn(len(slots))]
+		if sl.m != nil {
+			switch r.Intn(3) {
+			case 0:
+				delete(sl.m, sl.k)
+			default:
+				sl.m[sl.k] = repl()
+			}
+		} else {
+			sl.a[sl.i] = repl()
+		}
+	}
+	if arr, ok := doc.([]interface{}); ok && r.Intn(3) == 0 {
+		doc = append(arr, repl())
+	}
+	b, err := json.Marshal(doc)
+	return b, err == nil
+}
+
 func c20Mutate(r *rand.Rand, seed []byte, maxLen int, other []byte) []byte {
+	if len(seed) > 0 && (seed[0] == '{' || seed[0] == '[') && r.Intn(3) == 0 {
+		if b, ok := jsonStructMutate(r, seed); ok {
+			if len(b) > maxLen {
+				b = b[:maxLen]
+			}
+			return b
+		}
+	}
 	b := append([]byte(nil), seed...)
 	n := 1 + r.Intn(4)
 	for e := 0; e < n && len(b) > 0; e++ {
@@ -410,7 +480,7 @@ func (c *CaseResult) setCounter(k string, v int) {
 func init() {
 	register(&Check{
 		ID: "C20", Level: "exploration",
-		Rule: "four loaders (BuildRuleFromResource, JSONResource.Load + builder, DataContext.AddJSON, LoadKnowledgeBaseFromReader), batches of 200 inputs per sandboxed child process (RLIMIT_AS 4 GiB, BEGIN/END progress log, in-child CPU watchdog): random bytes, valid seeds, and structure-aware mutants of valid GRL / JSON-rule / JSON-fact / GRB seeds (bit flips, byte edits, truncation, splicing, duplication, dictionary tokens, boundary numbers, deep nesting up to 64 levels for rules and 2000 for JSON facts; for GRB every kind of edit of the 8-byte length / count fields to 0, 1, len+-1, 2^16, 2^20, 2^31, 2^32, 2^40, 2^62, 2^63, 2^64-1); size bound 4 KiB (GRL, JSON rules) / 64 KiB (JSON facts, GRB); verdicts: panic escaping the API, death of the process, CPU time above T(n) = 30 s + 2 us * n^2, memory obtained from the OS above M(n) = 512 MiB + 256 * n; non-trivial = distinct inputs that get past the loader's first syntactic check",
+		Rule: "four loaders (BuildRuleFromResource, JSONResource.Load + builder, DataContext.AddJSON, LoadKnowledgeBaseFromReader), batches of 200 inputs per sandboxed child process (RLIMIT_AS 4 GiB, BEGIN/END progress log, in-child CPU watchdog): random bytes, valid seeds, and structure-aware mutants of valid GRL / JSON-rule / JSON-fact / GRB seeds (bit flips, byte edits, truncation, splicing, duplication, dictionary tokens, boundary numbers, structure-aware JSON node replacement (null, empty containers, wrong kinds), deep nesting up to 64 levels for rules and 2000 for JSON facts; for GRB every kind of edit of the 8-byte length / count fields to 0, 1, len+-1, 2^16, 2^20, 2^31, 2^32, 2^40, 2^62, 2^63, 2^64-1); size bound 4 KiB (GRL, JSON rules) / 64 KiB (JSON facts, GRB); verdicts: panic escaping the API, death of the process, CPU time above T(n) = 30 s + 2 us * n^2, memory obtained from the OS above M(n) = 512 MiB + 256 * n; non-trivial = distinct inputs that get past the loader's first syntactic check",
 		Assume: []string{"budgets T(n), M(n) are fixed (>=10x the worst case measured on the unchanged tree, recorded as max_cpu_ms_* / max_sys_growth_kib_* in the evidence)", "wall-clock watchdog (15 min per batch) only yields inconclusive"},
 		Cases:  tierN(40, 4000),
 		Run:    runC20Case,
